@@ -831,6 +831,9 @@ func (m *Manager) computeParentMap() map[types.Hash256]int {
 func updateTxnProofs(txn *types.V2Transaction, updateElementProof func(*types.StateElement), numLeaves uint64) (valid bool) {
 	valid = true
 	updateProof := func(e *types.StateElement) {
+		if e.LeafIndex == types.UnassignedLeafIndex {
+			return // ephemeral element: not in the accumulator, nothing to update
+		}
 		valid = valid && e.LeafIndex < numLeaves
 		if !valid || e.LeafIndex == types.UnassignedLeafIndex {
 			return
